@@ -7,6 +7,7 @@
     mpn/generic/sb_divappr_q.c    __divappr_helper                           (:35-46)
   (This tree has no mpn_dc_divappr_q_n: MPIR's mpn_dc_divappr_q is W. Hart's own routine, not GMP's.)
 
+  (Line numbers are those of the repaired file now in /repo.)
   Shape of the model.  A limb area of k limbs is a natural number below B^k; `np + off` is `/ B^off`, a sub-area is
   `/ B^off % B^len`.  After the cut of the divisor (:49-53), the initial compare/subtract (:56-58) and the exact
   reduction loop (:64-70) the C always has qn == dn - 1 =: n (recorded in `ok`); the window W = {np, 2n+1} and
@@ -20,9 +21,9 @@
   Callees that belong to other parts enter as follows:
     mpn_sb_div_qr, mpn_dc_div_qr  (:67-68) exact quotient and remainder: `sbQr` (contract, proved for the limb-level model
                       in Props/C02_sb.lean) and Mpir.DcDiv.dcDivQr (the model of Props/C02_dc.lean)
-    mpn_sb_divappr_q  (:90, :129) a parameter `leaf` of the model; the driver instantiates it with the limb-level model
+    mpn_sb_divappr_q  (:101, :140) a parameter `leaf` of the model; the driver instantiates it with the limb-level model
                       Mpir.SbDivQ.sb_divappr_q (`sbLeaf`)
-    mpn_mulmid        (:100) the middle product as defined in mulmid.c:32-38 (`mulmidV`)
+    mpn_mulmid        (:111) the middle product as defined in mulmid.c:32-38 (`mulmidV`)
     mpn_cmp, mpn_sub_n, mpn_add_n, mpn_sub_1, mpn_add_1  comparison / arithmetic modulo B^k with the borrow (DcDiv.subN, addN)
   Theorems: MpirProofs/Props/C02_dcappr.lean.
 -/
@@ -34,12 +35,14 @@ open Mpir Mpir.DcDiv
 
 /-- result of a divappr call: `q` = the nn-dn quotient limbs, `qh` the returned high limb, `r3` = the three limbs
     np[dn-2 .. dn] after the call, `ok`: every callee was inside its ASSERTed domain and qn == dn - 1 held after the
-    reduction loop -/
+    reduction loop; `wl`: see the field -/
 structure Res where
   q : Nat
   qh : Nat
   r3 : Nat
   ok : Bool
+  /-- largest number of passes of the correction loop dc_divappr_q.c:116 (`while ((mp_limb_signed_t) cy < 0)`) in the call tree -/
+  wl : Nat := 0
   deriving DecidableEq, Repr
 
 def bad : Res := { q := 0, qh := 0, r3 := 0, ok := false }
@@ -94,7 +97,7 @@ def redLoop (T dn D : Nat) : Nat → Nat → Nat → Nat → Bool → Nat × Nat
       redLoop T dn D f (qn - sh) (W % B ^ (qn - sh) + B ^ (qn - sh) * r.r) (Qup * B ^ sh + r.q) (ok && r.ok)   -- :69
     else (qn, W, Qup, ok)
 
-/-- dc_divappr_q.c:116-117 `for (i = 0; i < sh - 1 && qp[sl + i] == ~CNST_LIMB(0); i++)
+/-- dc_divappr_q.c:127-128 `for (i = 0; i < sh - 1 && qp[sl + i] == ~CNST_LIMB(0); i++)
       cy += mpn_add_1 (np + nn - qn - 2, np + nn - qn - 2, sl + 2, dp[dn - sl - 3 - i]);`
     Qh = {qp + sl, sh} after the decrement, X = {np + n - 1, sl + 2}, dp[dn - sl - 3 - i] = dp[sh - 2 - i]. -/
 def fixLoop (sl sh D Qh : Nat) : Nat → Nat → Nat → Nat → Nat × Nat
@@ -105,24 +108,77 @@ def fixLoop (sl sh D Qh : Nat) : Nat → Nat → Nat → Nat → Nat × Nat
       fixLoop sl sh D Qh f (i + 1) a.1 ((cy + a.2) % B)
     else (X, cy)
 
-/-- dc_divappr_q.c:105-118 on the state (QQ = {qp + sl, q_orig - sl}, qh, X = {np + n - 1, sl + 2}, cy):
+/-- dc_divappr_q.c:116-129 on the state (QQ = {qp + sl, q_orig - sl}, qh, X = {np + n - 1, sl + 2}, cy, passes so far):
     `if ((mp_limb_signed_t) cy < 0) { … }` in the original C (rep = false: one pass), `while (…)` in the repaired C
-    (rep = true; the model gives up after `loopFuel` passes). -/
-def hiCorr (rep : Bool) (sl sh D qn0 : Nat) : Nat → Nat × Nat × Nat × Nat → Nat × Nat × Nat × Nat
+    (rep = true; the model gives up after `loopFuel` passes; Props/C02_dcappr.lean: one pass always suffices). -/
+def hiCorr (rep : Bool) (sl sh D qn0 : Nat) : Nat → Nat × Nat × Nat × Nat × Nat → Nat × Nat × Nat × Nat × Nat
   | 0, st => st
   | f + 1, st =>
-    if st.2.2.2 ≥ B / 2 then                                    -- :105 (mp_limb_signed_t) cy < 0
-      let b := subN (qn0 - sl) st.1 1                           -- :108 qh -= mpn_sub_1 (qp + sl, qp + sl, q_orig - sl, 1)
-      let a := addN (sl + 2) st.2.2.1 (D / B ^ (sh - 1))        -- :114 cy += mpn_add_n (…, dp + dn - sl - 2, sl + 2)
-      let g := fixLoop sl sh D (b.1 % B ^ sh) sh 0 a.1 ((st.2.2.2 + a.2) % B)   -- :116-117
-      let st' := (b.1, (st.2.1 + B - b.2) % B, g.1, g.2)
+    if st.2.2.2.1 ≥ B / 2 then                                  -- :116 (mp_limb_signed_t) cy < 0
+      let b := subN (qn0 - sl) st.1 1                           -- :119 qh -= mpn_sub_1 (qp + sl, qp + sl, q_orig - sl, 1)
+      let a := addN (sl + 2) st.2.2.1 (D / B ^ (sh - 1))        -- :125 cy += mpn_add_n (…, dp + dn - sl - 2, sl + 2)
+      let g := fixLoop sl sh D (b.1 % B ^ sh) sh 0 a.1 ((st.2.2.2.1 + a.2) % B)   -- :127-128
+      let st' := (b.1, (st.2.1 + B - b.2) % B, g.1, g.2, st.2.2.2.2 + 1)
       if rep then hiCorr rep sl sh D qn0 f st' else st'
     else st
 
+/-- dc_divappr_q.c:96-104, the high half of the quotient: (Qh, np[n+sl-1 .. n+sl+1], ok, wl) -/
+def hiPart (C : Nat) (leaf : Leaf) (recur : Nat → Nat → Nat → Nat → Res) (n dn W D sl sh : Nat) : Nat × Nat × Bool × Nat :=
+  if W / B ^ (n + sl) ≥ D / B ^ sl then                         -- :96 mpn_cmp (np + sl + dn - 1, dp + dn - sh - 1, sh + 1)
+    (B ^ sh - 1, helper3 sh (W / B ^ (n + sl - 1) % B) (W / B ^ (n + sl)) (D / B ^ sl), true, 0)   -- :97
+  else
+    let r := if sh < C then leaf (dn + sh) dn (W / B ^ sl) D    -- :100-101 mpn_sb_divappr_q (qp + sl, np + sl, dn + sh, …)
+             else recur (dn + sh) dn (W / B ^ sl) D             -- :103 (the returned high limb is dropped)
+    (r.q, r.r3, r.ok, r.wl)
+
+/-- dc_divappr_q.c:131-145, the low half: X = {np + n - 1, sl + 2} and cy after the correction loop;
+    (Ql, np[n-1 .. n+1], ok, wl) -/
+def loPart (C : Nat) (leaf : Leaf) (recur : Nat → Nat → Nat → Nat → Res) (n dn W D sl sh X cy : Nat) : Nat × Nat × Bool × Nat :=
+  if cy ≠ 0 ∨ X / B ≥ D / B ^ sh then                           -- :131 if (cy != 0) …; :135 mpn_cmp (np + dn - 1, dp + dn - sl - 1, sl + 1) >= 0
+    (B ^ sl - 1, helper3 sl (X % B) (X / B) (D / B ^ sh), true, 0)   -- :132, :136 __divappr_helper (qp, np + n - 1, dp + dn - sl - 1, sl)
+  else
+    let Nl := W % B ^ (n - 1) + B ^ (n - 1) * X                 -- {np, dn + sl}
+    let r := if sl < C then leaf (dn + sl) dn Nl D              -- :139-140 mpn_sb_divappr_q (qp, np, dn + sl, dp, dn, dinv)
+             else recur (dn + sl) dn Nl D                       -- :142
+    (r.q, r.r3, r.ok, r.wl)
+
+/-- dc_divappr_q.c:72-147, everything after the reduction loop: n = qn (= dn - 1, recorded in `ok0`), W = {np, 2n + 1},
+    D = {dp, dn}, Qup = the quotient limbs above qp + n stored by the reduction loop, qh, qn0 = q_orig.
+    `recur` = mpn_dc_divappr_q itself (the recursive calls :103, :142). -/
+def dcTail (rep : Bool) (C : Nat) (leaf : Leaf) (recur : Nat → Nat → Nat → Nat → Res)
+    (n dn W D Qup qh qn0 : Nat) (ok0 : Bool) : Res :=
+    let cy := W / B ^ (2 * n)                                   -- :72 cy = np[nn - 1]
+    let sh := n / 2                                             -- :75
+    let sl := n - sh
+    let dtop := D / B ^ n                                       -- dp[dn - 1]
+    -- :77-79 "Rare case where truncation ruins normalisation": mpn_cmp (np + nn - qn, dp + dn - qn, qn - 1)
+    if cy > dtop ∨ (cy = dtop ∧ W / B ^ (n + 1) % B ^ (n - 1) ≥ D / B % B ^ (n - 1)) then
+      -- :81 __divappr_helper (qp, np + nn - qn - 2, dp + dn - qn - 1, qn); :93 return qh
+      let r3 := helper3 n (W / B ^ (n - 1) % B) (W / B ^ n) D
+      -- :87-91, repaired C only: `if ((mp_limb_signed_t) np[nn - qn] < 0) { qp[0]--; np[nn - qn] += mpn_add_n (np + nn - qn - 2, …, dp + dn - 2, 2); }`
+      if rep && decide (r3 / B ^ 2 ≥ B / 2) then
+        { q := Qup * B ^ n + (B ^ n - 2), qh := qh, r3 := (r3 + D / B ^ (n - 1)) % B ^ 3, ok := ok0 }
+      else
+      { q := Qup * B ^ n + (B ^ n - 1), qh := qh, r3 := r3, ok := ok0 }
+    else
+    let hi := hiPart C leaf recur n dn W D sl sh                -- :96-104
+    let Qh := hi.1
+    let cy := hi.2.1 / B ^ 2                                    -- :106 cy = np[nn - sh]
+    let tp := mulmidV (n - 1) sh D Qh sh                        -- :111 mpn_mulmid (tp, dp + dn - qn - 1, qn - 1, qp + sl, sh)
+    let Y := W / B ^ (n - 1) % B ^ sl + B ^ sl * (hi.2.1 % B ^ 2)   -- {np + nn - qn - 2, sl + 2} = np[n-1 .. n+sl]
+    let s := subN (sl + 2) Y tp                                 -- :112 cy -= mpn_sub_n (…, tp, sl + 2)
+    let cy := (cy + B - s.2) % B
+    let QQ := Qup * B ^ sh + Qh                                 -- {qp + sl, q_orig - sl}
+    let c := hiCorr rep sl sh D qn0 loopFuel (QQ, qh, s.1, cy, 0)  -- :116-129
+    let X := c.2.2.1
+    let lo := loPart C leaf recur n dn W D sl sh X c.2.2.2.1    -- :131-145
+    { q := c.1 * B ^ sl + lo.1, qh := c.2.1, r3 := lo.2.1, ok := ok0 && hi.2.2.1 && lo.2.2.1,
+      wl := max (max hi.2.2.2 lo.2.2.2) c.2.2.2.2 }
+
 /-- mpn_dc_divappr_q (qp, np, nn, dp, dn, dinv) with DC_DIV_QR_THRESHOLD = T and SB_DIVAPPR_Q_CUTOFF = C;
     N = {np, nn}, D0 = {dp, dn0}.  ASSERTs (:44-46): dn ≥ 6, nn ≥ dn + 3, high bit of dp[dn-1].
-    `fuel` bounds the recursion depth.  `rep` = false: the C of the pinned tree; `rep` = true: the repaired C
-    (findings/dc_divappr_q_fix.diff: sign test after the helper in the rare case :78-82, `while` at :105). -/
+    `fuel` bounds the recursion depth.  `rep` = false: the C of the pinned tree before /repo commit 631f91d; `rep` = true:
+    the repaired C now in /repo (sign test after the helper in the rare case :83-91, `while` at :116). -/
 def dcDivapprF (rep : Bool) (T C : Nat) (leaf : Leaf) : Nat → Nat → Nat → Nat → Nat → Res
   | 0, _, _, _, _ => bad
   | fuel + 1, nn, dn0, N, D0 =>
@@ -137,48 +193,8 @@ def dcDivapprF (rep : Bool) (T C : Nat) (leaf : Leaf) : Nat → Nat → Nat → 
     let W0 := N / B ^ (nn - dn - qn0) % B ^ qn0 + B ^ qn0 * top -- :60-61 np += nn - dn - qn; nn = dn + qn
     let lp := redLoop T dn D qn0 qn0 W0 0 true                  -- :64-70
     let n := lp.1
-    let W := lp.2.1
-    let Qup := lp.2.2.1
     let ok0 := lp.2.2.2 && decide (dn = n + 1) && decide (2 ≤ n)
-    let cy := W / B ^ (2 * n)                                   -- :72 cy = np[nn - 1]
-    let sh := n / 2                                             -- :75
-    let sl := n - sh
-    let dtop := D / B ^ n                                       -- dp[dn - 1]
-    -- :77-79 "Rare case where truncation ruins normalisation": mpn_cmp (np + nn - qn, dp + dn - qn, qn - 1)
-    if cy > dtop ∨ (cy = dtop ∧ W / B ^ (n + 1) % B ^ (n - 1) ≥ D / B % B ^ (n - 1)) then
-      -- :81-82 __divappr_helper (qp, np + nn - qn - 2, dp + dn - qn - 1, qn); return qh
-      let r3 := helper3 n (W / B ^ (n - 1) % B) (W / B ^ n) D
-      -- repaired C only: `if ((mp_limb_signed_t) np[nn - qn] < 0) { qp[0]--; np[nn - qn] += mpn_add_n (np + nn - qn - 2, …, dp + dn - 2, 2); }`
-      if rep && decide (r3 / B ^ 2 ≥ B / 2) then
-        { q := Qup * B ^ n + (B ^ n - 2), qh := qh, r3 := (r3 + D / B ^ (n - 1)) % B ^ 3, ok := ok0 }
-      else
-      { q := Qup * B ^ n + (B ^ n - 1), qh := qh, r3 := r3, ok := ok0 }
-    else
-    let hi : Nat × Nat × Bool :=                                -- (Qh, np[n+sl-1 .. n+sl+1], ok)
-      if W / B ^ (n + sl) ≥ D / B ^ sl then                     -- :85 mpn_cmp (np + sl + dn - 1, dp + dn - sh - 1, sh + 1)
-        (B ^ sh - 1, helper3 sh (W / B ^ (n + sl - 1) % B) (W / B ^ (n + sl)) (D / B ^ sl), true)   -- :86
-      else
-        let r := if sh < C then leaf (dn + sh) dn (W / B ^ sl) D                   -- :89-90 mpn_sb_divappr_q (qp + sl, np + sl, dn + sh, …)
-                 else dcDivapprF rep T C leaf fuel (dn + sh) dn (W / B ^ sl) D         -- :92 (the returned high limb is dropped)
-        (r.q, r.r3, r.ok)
-    let Qh := hi.1
-    let cy := hi.2.1 / B ^ 2                                    -- :95 cy = np[nn - sh]
-    let tp := mulmidV (n - 1) sh D Qh sh                        -- :100 mpn_mulmid (tp, dp + dn - qn - 1, qn - 1, qp + sl, sh)
-    let Y := W / B ^ (n - 1) % B ^ sl + B ^ sl * (hi.2.1 % B ^ 2)   -- {np + nn - qn - 2, sl + 2} = np[n-1 .. n+sl]
-    let s := subN (sl + 2) Y tp                                 -- :101 cy -= mpn_sub_n (…, tp, sl + 2)
-    let cy := (cy + B - s.2) % B
-    let QQ := Qup * B ^ sh + Qh                                 -- {qp + sl, q_orig - sl}
-    let c := hiCorr rep sl sh D qn0 loopFuel (QQ, qh, s.1, cy)  -- :105-118
-    let X := c.2.2.1
-    let lo : Nat × Nat × Bool :=                                -- (Ql, np[n-1 .. n+1], ok)
-      if c.2.2.2 ≠ 0 ∨ X / B ≥ D / B ^ sh then                  -- :120 if (cy != 0) …; :124 mpn_cmp (np + dn - 1, dp + dn - sl - 1, sl + 1) >= 0
-        (B ^ sl - 1, helper3 sl (X % B) (X / B) (D / B ^ sh), true)   -- :121, :125 __divappr_helper (qp, np + n - 1, dp + dn - sl - 1, sl)
-      else
-        let Nl := W % B ^ (n - 1) + B ^ (n - 1) * X             -- {np, dn + sl}
-        let r := if sl < C then leaf (dn + sl) dn Nl D          -- :128-129 mpn_sb_divappr_q (qp, np, dn + sl, dp, dn, dinv)
-                 else dcDivapprF rep T C leaf fuel (dn + sl) dn Nl D   -- :131
-        (r.q, r.r3, r.ok)
-    { q := c.1 * B ^ sl + lo.1, qh := c.2.1, r3 := lo.2.1, ok := ok0 && hi.2.2 && lo.2.2 }
+    dcTail rep C leaf (fun a b c d => dcDivapprF rep T C leaf fuel a b c d) n dn lp.2.1 D lp.2.2.1 qh qn0 ok0
 
 /-- mpn_dc_divappr_q with recursion fuel nn (the quotient length at least halves at every level) -/
 def dcDivappr (rep : Bool) (T C : Nat) (leaf : Leaf) (nn dn N D : Nat) : Res := dcDivapprF rep T C leaf nn nn dn N D
